@@ -72,6 +72,7 @@ use crate::{
         UdpClusterConfig, UdpHealthConfig, UdpHealthMode, UdpListenerConfig, WorkerRequest,
         request::RequestType,
     },
+    state::validate_sozu_id_header,
 };
 
 /// Authoritative list of default cipher suites for all rustls-based TLS providers.
@@ -368,6 +369,12 @@ pub enum ConfigError {
          (RFC 6797 §7.2 forbids the header over plaintext HTTP)"
     )]
     HstsOnPlainHttp(String),
+    /// `sozu_id_header` on an HTTP or HTTPS listener is not a valid HTTP
+    /// header name (RFC 9110 §5.1 token). The worker writes the name verbatim
+    /// on the H1 wire, so an empty name, a space, a colon or a CR/LF would
+    /// corrupt or split every proxied message.
+    #[error("invalid sozu_id_header on listener {address}: {error}")]
+    InvalidSozuIdHeader { address: String, error: String },
 }
 
 /// An HTTP, HTTPS or TCP listener as parsed from the `Listeners` section in the toml
@@ -823,6 +830,18 @@ impl ListenerBuilder {
         Ok(out)
     }
 
+    /// Reject a `sozu_id_header` that is not a valid HTTP header name, with
+    /// the same rule the state and the workers apply to listener updates
+    fn validate_sozu_id_header(&self) -> Result<(), ConfigError> {
+        if let Some(header) = &self.sozu_id_header {
+            validate_sozu_id_header(header).map_err(|error| ConfigError::InvalidSozuIdHeader {
+                address: self.address.to_string(),
+                error: error.to_string(),
+            })?;
+        }
+        Ok(())
+    }
+
     /// Assign the timeouts of the config to this listener, only if timeouts did not exist
     fn assign_config_timeouts(&mut self, config: &Config) {
         self.front_timeout = Some(self.front_timeout.unwrap_or(config.front_timeout));
@@ -851,6 +870,8 @@ impl ListenerBuilder {
                 self.address
             )));
         }
+
+        self.validate_sozu_id_header()?;
 
         if let Some(config) = config {
             self.assign_config_timeouts(config);
@@ -914,6 +935,8 @@ impl ListenerBuilder {
                 found: self.protocol.to_owned(),
             });
         }
+
+        self.validate_sozu_id_header()?;
 
         let default_cipher_list = DEFAULT_CIPHER_LIST.into_iter().map(String::from).collect();
 
